@@ -171,6 +171,13 @@ class C18Otsu(Harness):
         env.prove("every split has two non-empty classes (first and last bin are never empty)", all(v is not None for v in var))
         if any(v is None for v in var):
             return
+        if env.mode == "float":
+            # exact ties of the between-class variance (e.g. symmetric counts 2,1,2) are broken by rounding in
+            # floats; such inputs cannot validate the exact-arithmetic encoding
+            from symx.core import ReplayReject
+            top = sorted((float(v) for v in var), reverse=True)
+            if len(top) > 1 and abs(top[0] - top[1]) <= 1e-9 * (1 + abs(top[0])):
+                raise ReplayReject("between-class variance tie (decided by rounding in floats)")
         alts = []
         for j in range(nb - 1):
             alts.append(env.And(env.eq(thr, centres[j]), *[env.le(var[i], var[j]) for i in range(nb - 1)],
